@@ -71,17 +71,18 @@ type sessTable struct {
 }
 
 type sess struct {
-	env    *core.Env
-	r      *rand.Rand
-	res    *core.CaseResult
-	prop   string
-	path   string
-	memKB  int
-	db     *sqlx.DB
-	rc     *rec.Recorder
-	base   *rec.Image // image at the start of the current recorder
-	tabs   []*sessTable
-	nextID int32
+	wideCatalog bool
+	env         *core.Env
+	r           *rand.Rand
+	res         *core.CaseResult
+	prop        string
+	path        string
+	memKB       int
+	db          *sqlx.DB
+	rc          *rec.Recorder
+	base        *rec.Image // image at the start of the current recorder
+	tabs        []*sessTable
+	nextID      int32
 	// snapshots for crash images: event index (in the current recorder) after which the model has this content
 	snaps  []sessSnap
 	dead   bool
@@ -184,18 +185,28 @@ func (s *sess) createTable() bool {
 		decl = strings.ToUpper(name[:1]) + name[1:]
 	}
 	ncol := 1 + r.Intn(5)
+	if s.wideCatalog {
+		ncol = 6 + r.Intn(4)
+	}
 	cols := []rm.Col{{Name: "id", K: rm.KInt}}
 	for i := 0; i < ncol; i++ {
-		cols = append(cols, rm.Col{Name: fmt.Sprintf("c%d", i), K: rm.Kind(r.Intn(3))})
+		cn := fmt.Sprintf("c%d", i)
+		if s.wideCatalog {
+			cn += strings.Repeat("x", r.Intn(28)) // catalog rows of very different lengths
+		}
+		cols = append(cols, rm.Col{Name: cn, K: rm.Kind(r.Intn(3))})
 	}
 	st := &sessTable{t: &rm.Table{Name: name, Cols: cols}, decl: decl, via: "sql"}
-	if r.Intn(3) == 0 {
+	if r.Intn(3) == 0 || s.wideCatalog {
 		st.via = "api"
 	}
 	for i, c := range cols {
 		k := "skiplist"
 		if st.via == "api" {
 			k = []string{"", "skiplist", "btree", "hash"}[r.Intn(4)]
+			if s.wideCatalog && i > 0 && r.Intn(4) != 0 {
+				k = "" // many tables x many columns: keep the number of permanently pinned index pages small
+			}
 			if i == 0 {
 				k = []string{"skiplist", "uniq", "btree"}[r.Intn(3)]
 			}
@@ -545,6 +556,9 @@ func sessCase(env *core.Env, idx int, prop string) *core.CaseResult {
 	s.path = fmt.Sprintf("%s/sess_%s_%d", env.TmpDir, prop, idx)
 	sqlx.RemoveFiles(s.path)
 	s.memKB = []int{512, 1024, 2048, 4096}[r.Intn(4)]
+	if prop == "C10" && idx%8 == 7 && s.memKB < 2048 {
+		s.memKB = 2048 // wide-catalog sessions (below): many tables and columns
+	}
 	s.base = &rec.Image{}
 	defer func() {
 		if s.db != nil && !s.dead {
@@ -623,6 +637,13 @@ func sessCase(env *core.Env, idx int, prop string) *core.CaseResult {
 		}
 	} else {
 		nTables := 2 + r.Intn(5)
+		if idx%8 == 7 {
+			// many tables with many columns and names of mixed lengths: the column catalog spans several pages and its
+			// rows are placed first-fit after restarts
+			s.wideCatalog = true
+			nTables = 9 + r.Intn(6)
+			res.Add("sessions_with_a_multi_page_column_catalog", 1)
+		}
 		restarts := 0
 		for len(s.tabs) < nTables && !s.dead {
 			olderHasRows := false
@@ -753,6 +774,8 @@ func sessCase(env *core.Env, idx int, prop string) *core.CaseResult {
 				if r.Intn(3) == 0 {
 					// an idle session: the database is started, only read, and left like a crash once more
 					s.identity("in an idle session after restart (" + strings.TrimPrefix(s.tags[0], "restart-") + ")")
+					s.noteRestart("crash-like-close")
+					s.tags = append([]string{"restart-crash-like-close"}, s.sticky...)
 					if s.dead || !s.close("testcase") {
 						break
 					}
